@@ -100,7 +100,55 @@ def _canonical(tree: ast.AST) -> ast.AST:
                 kept = [x for x in blk if not isinstance(x, ast.Pass)]
                 if kept:
                     setattr(node, fld, kept)
+    _inline_return_temporaries(tree)
+    tree = T().visit(tree)  # the inlined tests get their canonical polarity too
     return ast.fix_missing_locations(tree)
+
+
+def _inline_return_temporaries(tree: ast.AST) -> None:
+    """`x = E` immediately followed by `return x`, with x bound once and read once in the whole function, is
+    `return E`: a result kept in a temporary for one line (to log it, to name it) is the same code to every rule."""
+    for fn in ast.walk(tree):
+        if not isinstance(fn, (ast.FunctionDef, ast.AsyncFunctionDef)):
+            continue
+        loads: Dict[str, int] = {}
+        stores: Dict[str, int] = {}
+        for n in ast.walk(fn):
+            if isinstance(n, ast.Name):
+                d = loads if isinstance(n.ctx, ast.Load) else stores
+                d[n.id] = d.get(n.id, 0) + 1
+            elif isinstance(n, (ast.Global, ast.Nonlocal)):
+                for nm in n.names:
+                    stores[nm] = stores.get(nm, 0) + 2
+        params = {a.arg for a in fn.args.args + fn.args.kwonlyargs + fn.args.posonlyargs}
+        for owner in ast.walk(fn):
+            for fld in ("body", "orelse", "finalbody"):
+                blk = getattr(owner, fld, None)
+                if not (isinstance(blk, list) and len(blk) >= 2 and all(isinstance(x, ast.stmt) for x in blk)):
+                    continue
+                out = []
+                i = 0
+                while i < len(blk):
+                    st = blk[i]
+                    nxt = blk[i + 1] if i + 1 < len(blk) else None
+                    if isinstance(st, ast.Assign) and len(st.targets) == 1 and isinstance(st.targets[0], ast.Name) and isinstance(nxt, ast.Return) and isinstance(nxt.value, ast.Name) and nxt.value.id == st.targets[0].id and st.targets[0].id not in params and loads.get(st.targets[0].id, 0) == 1 and stores.get(st.targets[0].id, 0) == 1:
+                        out.append(ast.copy_location(ast.Return(value=st.value), nxt))
+                        i += 2
+                        continue
+                    # likewise `c = T` immediately followed by `if c:` / `if not c:` (c bound once, read once)
+                    if isinstance(st, ast.Assign) and len(st.targets) == 1 and isinstance(st.targets[0], ast.Name) and isinstance(nxt, ast.If) and st.targets[0].id not in params and loads.get(st.targets[0].id, 0) == 1 and stores.get(st.targets[0].id, 0) == 1:
+                        t = nxt.test
+                        neg = False
+                        while isinstance(t, ast.UnaryOp) and isinstance(t.op, ast.Not):
+                            t, neg = t.operand, not neg
+                        if isinstance(t, ast.Name) and t.id == st.targets[0].id:
+                            nxt.test = ast.copy_location(ast.UnaryOp(op=ast.Not(), operand=st.value), nxt.test) if neg else st.value
+                            out.append(nxt)
+                            i += 2
+                            continue
+                    out.append(st)
+                    i += 1
+                setattr(owner, fld, out)
 
 
 @dataclass
